@@ -661,15 +661,29 @@ func (s *storage) ReceiveBlob(ctx context.Context, br blob.Ref, source io.Reader
 }
 
 // append writes the provided blob to the current data file.
-func (s *storage) append(br blob.SizedRef, r io.Reader) error {
+func (s *storage) append(br blob.SizedRef, r io.Reader) (err error) {
 	s.mu.Lock()
 	defer s.mu.Unlock()
 	if s.closed {
 		return errors.New("diskpacked: write to closed storage")
 	}
+	if s.writer == nil {
+		// A previous roll-over to the next pack file failed; try again.
+		if err := s.nextPack(); err != nil {
+			return err
+		}
+	}
 
 	// to be able to undo the append
 	origOffset := s.size
+	undo := true
+	defer func() {
+		if err != nil && undo {
+			// Don't leave a partial or unindexed entry behind: it would
+			// make the pack file unparsable for Reindex and StreamBlobs.
+			s.undoAppend(origOffset)
+		}
+	}()
 
 	fn := s.writer.Name()
 	n, err := fmt.Fprintf(s.writer, "[%v %v]", br.Ref.String(), br.Size)
@@ -706,22 +720,40 @@ func (s *storage) append(br blob.SizedRef, r io.Reader) error {
 	}
 
 	packIdx := len(s.fds) - 1
+	err = s.index.Set(br.Ref.String(), blobMeta{packIdx, offset, br.Size}.String())
+	if err != nil {
+		// An index that reports an error may have recorded the row
+		// nevertheless. A row pointing at a truncated region would later
+		// serve another blob's bytes, so only take the entry back out of
+		// the pack once no row can point at it; otherwise keep it (a
+		// complete entry without a row is harmless: Reindex picks it up).
+		if delErr := s.index.Delete(br.Ref.String()); delErr != nil {
+			undo = false
+		}
+		return err
+	}
+	// The blob is stored and indexed. Failing to open the next pack
+	// file is reported, but must not undo that.
+	undo = false
 	if s.size > s.maxFileSize {
 		if err := s.nextPack(); err != nil {
 			return err
 		}
 	}
-	err = s.index.Set(br.Ref.String(), blobMeta{packIdx, offset, br.Size}.String())
-	if err != nil {
-		if _, seekErr := s.writer.Seek(origOffset, io.SeekStart); seekErr != nil {
-			log.Printf("ERROR seeking back to the original offset: %v", seekErr)
-		} else if truncErr := s.writer.Truncate(origOffset); truncErr != nil {
-			log.Printf("ERROR truncating file after index error: %v", truncErr)
-		} else {
-			s.size = origOffset
-		}
+	return nil
+}
+
+// undoAppend truncates the current pack file back to origOffset after a
+// failed append.
+// This function is not thread safe, s.mu should be locked by the caller.
+func (s *storage) undoAppend(origOffset int64) {
+	if _, seekErr := s.writer.Seek(origOffset, io.SeekStart); seekErr != nil {
+		log.Printf("ERROR seeking back to the original offset: %v", seekErr)
+	} else if truncErr := s.writer.Truncate(origOffset); truncErr != nil {
+		log.Printf("ERROR truncating file after append error: %v", truncErr)
+	} else {
+		s.size = origOffset
 	}
-	return err
 }
 
 // meta fetches the metadata for the specified blob from the index.
